@@ -174,7 +174,7 @@ def h_collocation(cx, p, n, family):
 FIRST3 = {'swap01': [[1, 2, 3], [4, 5, 6], [2, 1, 1]], 'swap02-12': [[1, 2, 3], [4, 5, 6], [7, 8, 10]], 'swap12': [[5, 1, 1], [1, 1, 2], [2, 4, 1]]}
 
 
-def h_history(cx, n, second, first=None):
+def h_history(cx, n, second, first=None, first_call='pivot'):
     """results do not depend on which routines ran before (memoised identity matrix, caches)"""
     L = geo.M('linalg')
     if first is None:
@@ -185,7 +185,19 @@ def h_history(cx, n, second, first=None):
     else:
         # concrete first matrix (the memoised state a first call can leave behind depends on its row swaps only)
         M1 = [cx.consts([F(x) for x in row]) for row in FIRST3[first]]
-    L.matrix_pivot(M1)
+    if first_call == 'pivot':
+        L.matrix_pivot(M1)
+    else:
+        # an earlier customer of the factorisation routines (its own matrix, its own right-hand side)
+        try:
+            if first_call == 'lu_solve':
+                L.lu_solve(M1, [[cx.real('c%d' % i)] for i in range(n)])
+            elif first_call == 'determinant':
+                L.matrix_determinant(M1)
+            else:
+                L.matrix_inverse(M1)
+        except ZeroDivisionError:
+            pass
     ident = L.matrix_identity(n)
     cx.eq('identity_after_pivot', ident, _ident(n))
     A = _matrix(cx, n, 'a')
@@ -316,6 +328,8 @@ def instances(tier):
         out.append(inst('collocation p%d n%d %s' % (p, n, famname), h_collocation, timeout=900, p=p, n=n, family=famname))
     for second in ('inverse', 'pivot', 'determinant', 'lu_factor'):
         out.append(inst('history pivot-then-%s n2' % second, h_history, timeout=900, n=2, second=second))
+        for fc in ('lu_solve', 'determinant', 'inverse'):
+            out.append(inst('history %s-then-%s n2' % (fc, second), h_history, timeout=900, n=2, second=second, first_call=fc))
         if not quick:
             for first in sorted(FIRST3):
                 out.append(inst('history pivot[%s]-then-%s n3' % (first, second), h_history, timeout=2400, n=3, second=second, first=first))
